@@ -241,8 +241,66 @@ let c17 file =
     | "F" :: _ | "S" :: _ | "open" :: _ | "halfrate" :: _ -> print_endline line
     | _ -> ()) (read_lines file)
 
+(* ---------------------------------------------------------------- vorbisfile *)
+let vfmode file =
+  let pages = ref [] and hdrs = ref [] and refline = ref [] in
+  let st = ref None in
+  let hs = ref 0 in
+  let parse_pkt tok =
+    match String.split_on_char ':' tok with
+    | ["h"; g] -> Some { pk_W = None; pk_gran = zi (int_of_string g); pk_eos = false }
+    | [w; g; e] when w = "0" || w = "1" -> Some { pk_W = Some (w = "1"); pk_gran = zi (int_of_string g); pk_eos = (e <> "0") }
+    | [w; g; e] when w = "x" -> Some { pk_W = None; pk_gran = zi (int_of_string g); pk_eos = (e <> "0") }
+    | _ -> None in
+  let get () = match !st with Some s -> s | None ->
+      let s = open_file (List.rev !pages) (List.rev !hdrs) (zi !hs) in st := Some s; s in
+  let show tok rc lk time implraw =
+    let s = get () in
+    (* at the very end of the data the byte cursor is wherever the last seek put it: echoed *)
+    let raw = if s.v_rem = [] then implraw else string_of_int (iz (raw_tell s)) in
+    Printf.printf "op %s | %d tell %d raw %s time %s rs %d cl %d link %d\n" tok rc (iz s.v_pcm) raw time
+      (iz s.v_rs) (iz s.v_link) lk in
+  List.iter (fun line ->
+    match split line with
+    | "case" :: _ -> pages := []; hdrs := []; st := None; hs := 0; print_endline line
+    | "pg" :: off :: len :: serial :: gran :: bos :: eos :: cont :: _ :: toks ->
+        let pk = List.filter_map parse_pkt toks in
+        pages := { pg_off = zi (int_of_string off); pg_len = zi (int_of_string len); pg_serial = zi (int_of_string serial);
+                   pg_gran = zi (int_of_string gran); pg_bos = (bos = "1"); pg_eos = (eos = "1"); pg_cont = (cont = "1");
+                   pg_pkts = pk } :: !pages;
+        print_endline line
+    | "ref" :: _ :: rest ->
+        refline := rest;
+        hdrs := List.rev (List.map (fun t -> match String.split_on_char ':' t with
+                  | [_; _; _; ser; b0; b1] -> ((zi (int_of_string ser), zi (int_of_string b0)), zi (int_of_string b1))
+                  | _ -> ((zi 0, zi 0), zi 0)) rest);
+        print_endline line
+    | "open" :: _ -> print_endline line
+    | ["halfrate"; r] -> if r = "0" then begin hs := 1 end; print_endline line
+    | "links" :: _ ->
+        let s = get () in
+        Printf.printf "links %d total %d" (List.length s.v_links) (iz (pcm_total s));
+        List.iteri (fun i l ->
+          let (ch, rate) = (match String.split_on_char ':' (List.nth !refline i) with
+                            | [_; c; r; _; _; _] -> (c, r) | _ -> ("?", "?")) in
+          Printf.printf " %d:%s:%s:%d:%d:%d" (iz l.li_len) ch rate (iz l.li_serial) (iz l.li_off) (iz l.li_dataoff)) s.v_links;
+        print_newline ()
+    | ["tell0"; _] -> Printf.printf "tell0 %d\n" (iz (get ()).v_pcm)
+    | "op" :: tok :: "|" :: rc :: "tell" :: _ :: "raw" :: implraw :: "time" :: time :: _ ->
+        let s = get () in
+        let arg () = int_of_string (String.sub tok 3 (String.length tok - 3)) in
+        (match String.sub tok 0 (min 3 (String.length tok)) with
+         | "ps:" -> let (r, s') = pcm_seek s (zi (arg ())) in st := Some s'; show tok (iz r) (-1) time implraw
+         | "pp:" -> let (r, s') = pcm_seek_page s (zi (arg ())) in st := Some s'; show tok (iz r) (-1) time implraw
+         | "rs:" -> let (r, s') = raw_seek s (zi (arg ())) in st := Some s'; show tok (iz r) (-1) time implraw
+         | "rf:" -> let ((r, lk), s') = read_float (read_fuel s) s (zi (arg ())) in st := Some s'; show tok (iz r) (iz lk) time implraw
+         | _ -> print_endline line)
+    | "holes" :: _ | "closes" :: _ -> print_endline line
+    | _ -> ()) (read_lines file)
+
 let () =
   match Array.to_list Sys.argv with
+  | [_; "vf"; f] -> vfmode f
   | [_; "c17"; f] -> c17 f
   | [_; "c11"; f] -> c11 f
   | [_; "c04"; f] -> c04 f
